@@ -115,7 +115,10 @@ def _bnd_component(R, pid, tier, seed):
             continue
         sc = c.get("scenario")
         relevant = {
-            "C07": sc == "repro", "C08": sc == "reuse", "C18": sc == "setcfg", "C12": sc == "duality",
+            "C07": sc in ("repro", "repro0"), "C08": sc in ("reuse", "reuse2"), "C18": sc in ("setcfg", "setcfg2"),
+            "C12": sc in ("duality", "duality_reuse") or (sc == "single" and c.get("debug")),
+            "C09": sc in ("single", "rejected"), "C06": sc in ("single", "rejected"),
+            "C10": sc in ("single", "setcfg2"),
             "C11": c.get("mode") in ("thread", "process"),
         }.get(pid, sc == "single")
         if not relevant:
@@ -132,6 +135,8 @@ def _bnd_component(R, pid, tier, seed):
                 samples.append({"case": c, "summary": r.get("summary"), "cycles": r.get("cycles"), "evaluations_of_objective": r.get("evals")})
         msgs = {}
         if pid == "C06":
+            if "C06" in r.get("monitors", {}):
+                msgs[f"BND.C06.{c['opt']}.rejected"] = r["monitors"]["C06"]
             if r.get("exc"):
                 e = r["exc"]
                 cont = c["kind"] in bnd.CONT
@@ -153,9 +158,11 @@ def _bnd_component(R, pid, tier, seed):
         else:
             if mon in r.get("monitors", {}):
                 msgs[f"BND.{pid}.{c['opt']}"] = r["monitors"][mon]
+            if pid == "C12" and sc == "single" and "C02" in r.get("monitors", {}):
+                msgs[f"BND.C12.{c['opt']}.debug"] = r["monitors"]["C02"]
             if r.get("exc") and pid in ("C07", "C08", "C18", "C12"):
                 e = r["exc"]
-                if not _known_exc(exp, c["opt"], e):
+                if not _known_exc(exp, c["opt"], e, c["kind"]):
                     msgs[f"BND.{pid}.{c['opt']}.{e['type']}"] = f"{e['type']} in {e['where']}: {e['msg']}"
         for k, m in msgs.items():
             viol.setdefault(k, (m, r))
@@ -184,8 +191,11 @@ def _bnd_component(R, pid, tier, seed):
     R.assume("BND part: bounded, not proved - run-time form of the same contracts on the enumerated family only")
 
 
-def _known_exc(exp, opt, e):
-    return any(opt == k[0] and e["type"] == k[1] for k in exp.get("C06_known_exceptions", []))
+def _known_exc(exp, opt, e, kind=None):
+    """exceptions that the unchanged tree already raises for this optimizer (C06's business, not the relational property's)"""
+    if any(opt == k[0] and e["type"] == k[1] for k in exp.get("C06_known_exceptions", [])):
+        return True
+    return kind is not None and [opt, kind] in exp.get("C06_intcoded_failing_pairs", [])
 
 
 def _full_case(r, tier, seed):
